@@ -73,3 +73,23 @@ SCHEMA = {
              'segmentJoinMultiplier': REAL, 'sequentialityScore': INT, 'numberOfCpus': OPT(INT), 'disableProgressBar': BOOL},
     'SequenceGenerator': {'resolution': INT, 'blurRadius': INT},
 }
+
+
+# ------------------------------------------------------------------ class invariants (immutable classes)
+# Each invariant is an obligation of the class's __init__ (specs/segments_factory.py: segment_init, empty_segment_init) and is then available,
+# as a type invariant, for every object of the class (and of its subclasses).
+def _inv_segment(e, o):
+    import z3
+    P = o.positions
+    T = z3.Int('ciT')
+    el = P[T - P.off]
+    return z3.ForAll([T], z3.Implies(z3.And(P.off <= T, T < P.off + P.len, el.isa('ScoredAlignedPair')), o.alignedPositions.len >= 1),
+                     patterns=[P.raw(T - P.off).t])
+
+
+def _inv_empty_segment(e, o):
+    import z3
+    return z3.And(o.positions.len == 0, o.alignedPositions.len == 0, o.segmentScore == 0)
+
+
+CLASS_INVARIANTS = {'AlignmentSegment': _inv_segment, 'EmptyAlignmentSegment': _inv_empty_segment}
